@@ -114,13 +114,23 @@ func (g *SentenceGen) Random(r *rand.Rand, target int) []int {
 		pi := g.witness[nt]
 		steps++
 		if depth <= 25+target && steps < 3000+20*target && len(out) < target && len(out) < 200+target {
-			var usable []int
+			var usable, growing []int
 			for _, q := range g.C.ProdsOf(nt) {
 				if g.prodOK[q] >= 0 {
 					usable = append(usable, q)
+					for _, s := range g.C.Prods[q].Body {
+						if !g.C.IsTerm(s) {
+							growing = append(growing, q)
+							break
+						}
+					}
 				}
 			}
 			pi = usable[r.Intn(len(usable))]
+			// far from the target: prefer alternatives that keep the derivation going
+			if len(growing) > 0 && target > 30 && len(out) < target/2 && r.Intn(10) < 8 {
+				pi = growing[r.Intn(len(growing))]
+			}
 		}
 		for _, s := range g.C.Prods[pi].Body {
 			if g.C.IsTerm(s) {
@@ -151,6 +161,33 @@ func LongSentences(r *rand.Rand, c *CFG, n, minLen int) [][]int {
 		k := keyOf(s)
 		if !seen[k] {
 			seen[k] = true
+			out = append(out, s)
+		}
+	}
+	return out
+}
+
+// DeepSentences returns up to n distinct sentences on which the reference parser's stack
+// grows to at least minDepth entries (nesting / right recursion; left-recursive lists stay flat).
+func DeepSentences(r *rand.Rand, lr *LR1, n, minDepth int) [][]int {
+	sg := NewSentenceGen(lr.C)
+	if !sg.HasSentence() {
+		return nil
+	}
+	seen := map[string]bool{}
+	var out [][]int
+	for tries := 0; tries < 60 && len(out) < n; tries++ {
+		s := sg.Random(r, minDepth+r.Intn(3*minDepth))
+		if len(s) < minDepth || len(s) > 3000 {
+			continue
+		}
+		k := keyOf(s)
+		if seen[k] {
+			continue
+		}
+		seen[k] = true
+		m := lr.Parse(s, ParseOpts{FailAt: -1})
+		if m.Accepted && m.MaxDepth >= minDepth {
 			out = append(out, s)
 		}
 	}
